@@ -35,6 +35,7 @@ props!(
     ("C10", c10),
     ("C11", c11),
     ("C12", c12),
+    ("C13", c13),
     ("C17", c17),
     ("C18", c18),
     ("C19", c19),
